@@ -434,7 +434,7 @@ int main(int argc, char** argv) {
                 vh::distinct((uint64_t)O_KINDS * variants);
             }
     }
-    const long NH = vh::opt_long("histories", vh::thorough() ? 2000 : 150);
+    const long NH = vh::opt_long("histories", vh::thorough() ? 10000 : 150);
     const int maxlen = vh::thorough() ? 40 : 12;
     for (long hno = 0; hno < NH; ++hno) {
         if (!vh::begin_case(vh::cat(IMGN, ".", FLAVN), vh::cat("history", hno))) continue;
